@@ -95,6 +95,31 @@ fn yaml_bytes() -> BoxedStrategy<Vec<u8>> {
         }),
         2 => proptest::collection::vec(proptest::sample::select(YAML_TOKENS.to_vec()), 1..30).prop_map(|t| t.concat()),
         1 => Just(b"a: &x [1, 2]\nb: *x\n--- !t\n- *y\n".to_vec()),
+        // tens of KiB of YAML dense with 2-, 3- and 4-byte characters at drawn
+        // offsets: libyaml refills its 16 KiB raw buffer with a partial
+        // character carried over, the read handler is asked for less than 16 KiB
+        3 => (proptest::collection::vec(any::<u8>(), 40..400), 1usize..5, any::<bool>()).prop_map(|(gaps, docs, flow)| {
+            let chars = ['\u{e9}', '\u{20ac}', '\u{1f600}', '\u{30a2}', '\u{10ffff}', '\u{7ff}'];
+            let mut out = String::new();
+            let target = 18_000 + gaps.len() * 150;
+            let mut i = 0usize;
+            for d in 0..docs {
+                out.push_str(if d == 0 && !flow { "" } else { "---\n" });
+                while out.len() < target * (d + 1) / docs {
+                    out.push_str("- \"");
+                    for _ in 0..12 {
+                        let g = gaps[i % gaps.len()] as usize;
+                        i += 1;
+                        for _ in 0..(g % 9) {
+                            out.push('x');
+                        }
+                        out.push(chars[(g / 9) % chars.len()]);
+                    }
+                    out.push_str("\"\n");
+                }
+            }
+            out.into_bytes()
+        }),
     ]
     .boxed()
 }
